@@ -177,92 +177,89 @@ def run(R, ctx):
         "sources are flagged, nothing unknown is turned into a literal. Arithmetic, coercion and formatting results are NOT decided."
     )
     R.assumptions += ["only the shape of the tables is decided; the numeric/string semantics re-implemented in Rust need execution to compare"]
+    from .. import peval
+    from ..peval import Enum, Struct, UNKNOWN, make
+    N = "nodes::expressions::"
+    names_e = [v["name"] for v in lib.adts[EXPR]["variants"]]
+    names_lv = [v["name"] for v in lib.adts[LV]["variants"]] if LV in lib.adts else []
+
+    def payload(enum_adt, V, extra=None):
+        tys = [f["tys"] for v in lib.adts[enum_adt]["variants"] if v["name"] == V for f in v["fields"]]
+        t = tys[0] if tys else ""
+        while t.startswith("alloc::boxed::Box<"):
+            t = t[len("alloc::boxed::Box<"):-1]
+        if t in lib.adts and lib.adts[t].get("kind") == "struct":
+            return make(lib, t, extra)
+        return UNKNOWN
+
+    def ev_(fname, value, evaluator=None, recv_adt=EV):
+        fn_ = lib.fn("%s::%s" % (recv_adt, fname))
+        if fn_ is None:
+            return None, None, ["%s not found" % fname]
+        pe = peval.PEval(lib, ctx.an)
+        args = [evaluator if evaluator is not None else make(lib, EV), value] if recv_adt == EV else [value]
+        try:
+            return fn_, pe.call_fn(fn_, args), pe.unknown_reasons
+        except peval.OutOfFuel:
+            return fn_, UNKNOWN, ["no termination"]
+
+    def lv_name(v):
+        return v.variant if isinstance(v, Enum) and v.adt == LV else None
     rid = "C08.opaque"
-    R.rule(rid, "Evaluator::evaluate maps Call, Field, Identifier, Index and VariableArguments to LuaValue::Unknown; evaluate_prefix maps Call, Field, "
-                "Identifier, Index to Unknown (their run-time value is not in the program text)")
-    tbl, fn = table_of(ctx, R, rid, EV + "::evaluate", EXPR)
-    if tbl:
-        for v in ("Call", "Field", "Identifier", "Index", "VariableArguments"):
-            R.ob(rid, "evaluate|" + v, first_class(tbl, v) == "variant:Unknown", ctx.where(fn), "Expression::%s -> %s" % (v, first_class(tbl, v)))
-        # literals map to their own kind (a swapped arm would fold `nil` to false)
-        for v, want in (("False", "variant:False"), ("True", "variant:True"), ("Nil", "variant:Nil"), ("Function", "variant:Function"), ("Table", "variant:Table")):
-            R.ob(rid, "evaluate|literal|" + v, first_class(tbl, v) == want, ctx.where(fn), "Expression::%s -> %s" % (v, first_class(tbl, v)))
-    tbl, fn = table_of(ctx, R, rid, EV + "::evaluate_prefix", PREFIX)
-    if tbl:
-        for v in ("Call", "Field", "Identifier", "Index"):
-            R.ob(rid, "evaluate_prefix|" + v, first_class(tbl, v) == "variant:Unknown", ctx.where(fn), "Prefix::%s -> %s" % (v, first_class(tbl, v)))
+    R.rule(rid, "Evaluator::evaluate, evaluated from its typed tree on every Expression variant with an opaque payload: Call, Field, Identifier, "
+                "Index and VariableArguments give LuaValue::Unknown (their run-time value is not in the program text); the literals true / "
+                "false / nil, a function and a table constructor give their own kind (a swapped arm would fold `nil` to false)")
+    for v, want in (("Call", "Unknown"), ("Field", "Unknown"), ("Identifier", "Unknown"), ("Index", "Unknown"), ("VariableArguments", "Unknown")):
+        fn, r, why = ev_("evaluate", Enum(EXPR, v, {"0": payload(EXPR, v)}))
+        if R.require(rid, "anchor:evaluate", fn is not None, "", "Evaluator::evaluate not found"):
+            R.ob(rid, "evaluate|" + v, lv_name(r) == want, ctx.where(fn), "Expression::%s -> %s %s" % (v, r, why[:1] if lv_name(r) != want else ""))
+    for v, want in (("False", "False"), ("True", "True"), ("Nil", "Nil"), ("Function", "Function"), ("Table", "Table")):
+        fn, r, why = ev_("evaluate", Enum(EXPR, v, {"0": payload(EXPR, v)}))
+        if fn is not None:
+            R.ob(rid, "evaluate|literal|" + v, lv_name(r) == want, ctx.where(fn), "Expression::%s -> %s %s" % (v, r, why[:1] if lv_name(r) != want else ""))
 
     rid = "C08.effects"
-    R.rule(rid, "call_has_side_effects is constantly true and is what has_side_effects(Call)/prefix_has_side_effects(Call) return; field/index "
-                "side effects are `!pure_metamethods || ..`; maybe_metatable(Unknown) is true; has_side_effects is constant false only for literals, "
-                "identifiers, functions and `...`")
-    fn = lib.fn(EV + "::call_has_side_effects")
-    if R.require(rid, "anchor:call_has_side_effects", fn is not None, "", "not found"):
-        R.ob(rid, "call_has_side_effects|constant-true", tables.classify_body(thir.body_of(fn)) == "true", ctx.where(fn), "body is the literal true")
-    tbl, fn = table_of(ctx, R, rid, EV + "::has_side_effects", EXPR)
-    if tbl:
-        rows = tbl.get("Call", [])
-        ok = bool(rows) and any(c.get("fname") == "call_has_side_effects" for c in thir.walk(rows[0][2]["body"]) if c.get("k") == "Call") or first_class(tbl, "Call") == "true"
-        R.ob(rid, "has_side_effects|Call", ok, ctx.where(fn), "Expression::Call -> call_has_side_effects (constant true): %s" % ok)
+    R.rule(rid, "Evaluator::has_side_effects, evaluated on every Expression variant: a call is always effectful; with an OPAQUE payload the answer "
+                "may be the constant false only for literals, identifiers, functions and `...`; a field / index access whose operands are "
+                "effect-free is still effectful unless pure_metamethods is set (an unknown value may carry __index)")
+    fn, r, why = ev_("has_side_effects", Enum(EXPR, "Call", {"0": payload(EXPR, "Call")}))
+    if R.require(rid, "anchor:has_side_effects", fn is not None, "", "not found"):
+        R.ob(rid, "has_side_effects|Call", r is True, ctx.where(fn), "Expression::Call -> %s %s" % (r, why[:1] if r is not True else ""))
         allowed_false = {"False", "True", "Nil", "Number", "String", "Function", "Identifier", "VariableArguments"}
-        for v, r in sorted(tbl.items()):
-            if first_class(tbl, v) == "false":
-                R.ob(rid, "has_side_effects|constant-false|" + v, v in allowed_false, ctx.where(fn), "Expression::%s is declared effect-free unconditionally" % v)
-    for name in ("field_has_side_effects", "index_has_side_effects"):
-        fn = lib.fn("%s::%s" % (EV, name))
-        if R.require(rid, "anchor:" + name, fn is not None, "", "not found"):
-            b = thir.body_of(fn)
-            while b.get("k") == "Block" and not b["stmts"] and "tail" in b:
-                b = b["tail"]
-            first = b
-            while first.get("k") == "Logical" and first.get("op") == "Or":
-                first = first["l"]
-            ok = b.get("k") == "Logical" and b.get("op") == "Or" and first.get("k") == "Unary" and first.get("op") == "Not" and \
-                any(x.get("k") == "Field" and x.get("f") == "pure_metamethods" for x in thir.walk(first))
-            R.ob(rid, name + "|effectful-unless-pure-metamethods", ok, ctx.where(fn), "`!self.pure_metamethods || ..`: %s" % ok)
-    tbl, fn = table_of(ctx, R, rid, EV + "::maybe_metatable", LV)
-    if tbl:
-        R.ob(rid, "maybe_metatable|Unknown", first_class(tbl, "Unknown") == "true", ctx.where(fn), "LuaValue::Unknown -> %s" % first_class(tbl, "Unknown"))
-    tbl, fn = table_of(ctx, R, rid, EV + "::prefix_has_side_effects", PREFIX)
-    if tbl:
-        rows = tbl.get("Call", [])
-        ok = bool(rows) and any(c.get("fname") == "call_has_side_effects" for c in thir.walk(rows[0][2]["body"]) if c.get("k") == "Call")
-        R.ob(rid, "prefix_has_side_effects|Call", ok, ctx.where(fn), "Prefix::Call -> call_has_side_effects: %s" % ok)
+        def opaque(enum_adt, V):
+            pl = payload(enum_adt, V)
+            if isinstance(pl, Struct):
+                return Struct(pl.adt, {k: UNKNOWN for k in pl.fields})
+            return pl
+        for v in names_e:
+            fn, r, why = ev_("has_side_effects", Enum(EXPR, v, {"0": opaque(EXPR, v)}))
+            if r is False:
+                R.ob(rid, "has_side_effects|constant-false|" + v, v in allowed_false, ctx.where(fn), "Expression::%s is declared effect-free whatever it contains" % v)
+        ident = Enum(EXPR, "Identifier", {"0": payload(EXPR, "Identifier")})
+        PREFIX_ID = Enum(PREFIX, "Identifier", {"0": payload(PREFIX, "Identifier")})
+        impure = make(lib, EV)
+        bools = [k for k, x in impure.fields.items() if x is False]
+        for v, extra in (("Field", {"prefix": PREFIX_ID}), ("Index", {"prefix": PREFIX_ID, "index": ident})):
+            fn, r, why = ev_("has_side_effects", Enum(EXPR, v, {"0": payload(EXPR, v, extra)}), impure)
+            R.ob(rid, "%s_has_side_effects|effectful-unless-pure-metamethods" % v.lower(), r is True, ctx.where(fn),
+                 "`name.x` / `name[k]` with the evaluator's flags %s all false -> %s %s" % (bools, r, why[:1] if r is not True else ""))
 
     rid = "C08.multi"
-    R.rule(rid, "can_return_multiple_values: true for Call and VariableArguments, false for Parenthese")
-    tbl, fn = table_of(ctx, R, rid, EV + "::can_return_multiple_values", EXPR)
-    if tbl:
-        for v, want in (("Call", "true"), ("VariableArguments", "true"), ("Parenthese", "false")):
-            R.ob(rid, "can_return_multiple_values|" + v, first_class(tbl, v) == want, ctx.where(fn), "Expression::%s -> %s" % (v, first_class(tbl, v)))
+    R.rule(rid, "can_return_multiple_values: true for Call and VariableArguments, false for Parenthese (evaluated)")
+    for v, want in (("Call", True), ("VariableArguments", True), ("Parenthese", False)):
+        fn, r, why = ev_("can_return_multiple_values", Enum(EXPR, v, {"0": payload(EXPR, v)}))
+        if R.require(rid, "anchor:can_return_multiple_values", fn is not None, "", "not found"):
+            R.ob(rid, "can_return_multiple_values|" + v, r is want, ctx.where(fn), "Expression::%s -> %s" % (v, r))
 
     rid = "C08.domain"
     R.rule(rid, "LuaValue::is_truthy: Unknown -> None, Nil/False -> Some(false), every other variant -> Some(true); to_expression: None for "
-                "Unknown, Table and Function")
-    fn = lib.fn(LV + "::is_truthy")
-    if R.require(rid, "anchor:is_truthy", fn is not None, "", "not found"):
-        ms = tables.matches_on(lib, thir.body_of(fn), LV)
-        if R.require(rid, "anchor:is_truthy-match", len(ms) >= 1, ctx.where(fn), "no match"):
-            t = {}
-            names = [v["name"] for v in lib.adts[LV]["variants"]]
-            decided = set()
-            for arm in ms[0]["arms"]:
-                vs = {v for a, v in thir.pat_variants(arm["pat"]) if a == LV}
-                if not vs and thir.pat_is_catchall(arm["pat"]):
-                    vs = set(names) - decided
-                b = arm["body"]
-                cls = "None" if (b.get("k") == "Adt" and b.get("variant") == "None") else None
-                if b.get("k") == "Adt" and b.get("variant") == "Some":
-                    inner = b["fields"][0]["e"]
-                    cls = "Some(%s)" % inner.get("v") if inner.get("k") == "Lit" else "Some(?)"
-                for v in vs:
-                    if v not in decided:
-                        t[v] = cls
-                        decided.add(v)
-            for v in names:
-                want = "None" if v == "Unknown" else "Some(false)" if v in ("Nil", "False") else "Some(true)"
-                R.ob(rid, "is_truthy|" + v, t.get(v) == want, ctx.where(fn), "LuaValue::%s -> %s (expected %s)" % (v, t.get(v), want))
-    tbl, fn = table_of(ctx, R, rid, LV + "::to_expression", LV)
-    if tbl:
-        for v in ("Unknown", "Table", "Function"):
-            R.ob(rid, "to_expression|" + v, first_class(tbl, v) == "None", ctx.where(fn), "LuaValue::%s -> %s" % (v, first_class(tbl, v)))
+                "Unknown, Table and Function (evaluated on every variant)")
+    for v in names_lv:
+        fn, r, why = ev_("is_truthy", Enum(LV, v, {"0": UNKNOWN}), recv_adt=LV)
+        if R.require(rid, "anchor:is_truthy", fn is not None, "", "not found"):
+            want = peval.NONE if v == "Unknown" else peval.some(v not in ("Nil", "False"))
+            R.ob(rid, "is_truthy|" + v, r == want, ctx.where(fn), "LuaValue::%s -> %s (expected %s)" % (v, r, want))
+    for v in ("Unknown", "Table", "Function"):
+        fn, r, why = ev_("to_expression", Enum(LV, v, {"0": UNKNOWN}), recv_adt=LV)
+        if R.require(rid, "anchor:to_expression", fn is not None, "", "not found"):
+            R.ob(rid, "to_expression|" + v, r == peval.NONE, ctx.where(fn), "LuaValue::%s -> %s" % (v, r))
